@@ -1,6 +1,6 @@
 (* C07 — all memory comes from the allocator and is returned to it exactly once. *)
 From Coq Require Import ZArith List Bool.
-From Cntgs Require Import Base Layout Mem Vector World Spec Rep WorldThm.
+From Cntgs Require Import Base Layout Mem Vector World Spec Rep WorldThm NtLedger.
 Import ListNotations.
 Local Open Scope Z_scope.
 
@@ -44,3 +44,21 @@ Example C07_example :
   length (filter (fun x => match x with EAlloc _ _ _ _ => true | _ => false end) (e0 ++ e ++ destroy L v)) = 6%nat /\
   ledger [] (e0 ++ e ++ destroy L v) = Some [].
 Proof. vm_compute. split; reflexivity. Qed.
+
+(* ... for EVERY parameter list and EVERY operation, erase with elements behind the erased
+   ones and non-trivial value types included (NtLedger.v): constructions, destructions,
+   relocations through constructors and byte copies are transparent to the ledger, and no
+   operation other than a growing reserve changes which blocks the vector owns *)
+Theorem C07_whole_life_balanced_every_list : forall L cap budget fixed aid junk h,
+  let '(v0, e0) := mkvec L cap budget fixed aid junk 0%nat 1%nat in
+  let '((v, nb), e) := lrun L junk (v0, 2%nat) h in
+  ledger [] (e0 ++ e ++ destroy L v) = Some [].
+Proof. exact whole_life_ledger_nt. Qed.
+Print Assumptions C07_whole_life_balanced_every_list.
+
+Theorem C07_step_balanced_every_list : forall L junk v nb o,
+  ids_ok L v nb ->
+  let '((v', nb'), e) := lstep L junk (v, nb) o in
+  ledger (blocks_of L v) e = Some (blocks_of L v') /\ ids_ok L v' nb'.
+Proof. exact lstep_ledger_nt. Qed.
+Print Assumptions C07_step_balanced_every_list.
